@@ -1,0 +1,18 @@
+//go:build verif
+
+package visitor
+
+import "sort"
+
+// VerifC10Names returns the names of the visitor listeners (stcp / sudp proxies), sorted.
+// Accessor for the C10 correspondence harness; compiled only with -tags verif.
+func (vm *Manager) VerifC10Names() []string {
+	vm.mu.RLock()
+	defer vm.mu.RUnlock()
+	out := make([]string, 0, len(vm.listeners))
+	for n := range vm.listeners {
+		out = append(out, n)
+	}
+	sort.Strings(out)
+	return out
+}
